@@ -14,6 +14,7 @@ EXTENDS CodonUniverse
 CONSTANTS MaxLen4,     \* every string over A C G T of length 0..MaxLen4 is translated with every table of Tables4
           MaxLen3,     \* every string over A G T of length MaxLen4+1..MaxLen3 with the default table
           MaxLen3b,    \* ... of length MaxLen4+1..MaxLen3b with NCBI table 11 (seven start codons)
+          MaxCodons,   \* sequences of 0..MaxCodons codons out of ATG TTG TAA GCA with 0..2 nucleotides before and after
           RcLen,       \* every string of length 0..RcLen goes through reverse().complement() first
           SeqLen,      \* strings over mixed-case / ambiguous / foreign letters of length 0..SeqLen
           Families     \* the families of cases to generate
@@ -25,11 +26,17 @@ vars == <<inp, res, phase>>
 Tables4 == {<<"default">>, <<"id", 1>>, <<"id", 11>>, <<"id", 27>>, <<"syn", "odd">>}
 SeqLetters == {"A", "c", "g", "T", "N", "y", "X"}
 Fam(f) == f \in Families
+\* codon-level sequences: many start codons in one frame, nested ORFs, several stops, every frame offset
+CodonChoices == <<ToCodon(WordNum(W_ATG)), ToCodon(WordNum(W("T", "T", "G"))), ToCodon(WordNum(W("T", "A", "A"))), ToCodon(WordNum(W("G", "C", "A")))>>
+Filler(n) == [i \in 1..n |-> 1]
 Init ==
   /\ phase = 0 /\ res = <<>>
   /\ \/ Fam("translate") /\ \E n \in 0..MaxLen4 : \E s \in [1..n -> 0..3] : \E tr \in Tables4 : inp = <<"translate", s, tr, "fwd">>
      \/ Fam("translate") /\ \E n \in (MaxLen4 + 1)..MaxLen3 : \E s \in [1..n -> {0, 2, 3}] : inp = <<"translate", s, <<"default">>, "fwd">>
      \/ Fam("translate") /\ \E n \in (MaxLen4 + 1)..MaxLen3b : \E s \in [1..n -> {0, 2, 3}] : inp = <<"translate", s, <<"id", 11>>, "fwd">>
+     \/ Fam("translate") /\ \E k \in 0..MaxCodons : \E cs \in [1..k -> 1..4] : \E pre \in 0..2 : \E suf \in 0..2 :
+          \E tr \in {<<"default">>, <<"id", 11>>} :
+            inp = <<"translate", Filler(pre) \o FlattenSeq([i \in 1..k |-> CodonChoices[cs[i]]]) \o Filler(suf), tr, "fwd">>
      \/ Fam("translate") /\ \E n \in 0..RcLen : \E s \in [1..n -> 0..3] : \E tr \in {<<"default">>, <<"id", 11>>} : inp = <<"translate", s, tr, "rc">>
      \/ Fam("seq") /\ \E n \in 0..SeqLen : \E s \in [1..n -> SeqLetters] : \E amb \in {"auto", "no", "yes"} : inp = <<"seq", s, amb>>
      \/ Fam("load") /\ \E key \in RealKeys : inp = <<"load", <<"real">>, key>>
